@@ -91,6 +91,14 @@ def _create_new_header(
         new_reuse_info.copyright_lines
     ) or not set(map(str, reuse_info.spdx_expressions)).issubset(
         map(str, new_reuse_info.spdx_expressions)
+    ) or (
+        # The same goes for contributors, if the template renders them at
+        # all: a contributor that reads back differently (e.g. one ending in
+        # a comment terminator) would be added again by every later run.
+        new_reuse_info.contributor_lines
+        and not set(reuse_info.contributor_lines).issubset(
+            new_reuse_info.contributor_lines
+        )
     ):
         _LOGGER.debug(
             _(
